@@ -935,6 +935,15 @@ def _gen_rt(r):
     st = None
     if r.random() < 0.15:
         st = (r.choice([-1, 0, 1, cfg[0] - 1, 7]), r.choice([-1, 12, 24, 36, 5, 48, 6]), r.choice([-1, 127, 64, 100, 8]))
+    if r.random() < 0.06:
+        # the state was left behind by a tokeniser with other note values: its running value is one this configuration
+        # does not know, and the piece opens with a note of exactly that length
+        bad = [v for v in (5, 7, 36, 48, 1) if v not in cfg_values(cfg)]
+        if bad and tracks:
+            v = r.choice(bad)
+            tracks = [[ON(0, cfg[1], 100), WT(0, v), OFF(0, cfg[1])] + [m for m in tracks[0] if m[0] == "WAIT"][:1]] + tracks[1:]
+            hows = ["rel"] + hows[1:]
+            st = (0, v, r.choice([-1, 127]))
     return cfg, tracks, hows, st
 
 
